@@ -283,6 +283,9 @@ def run(report, p):
     dnodes = {gl5.node_for(c).id for c, tg in p.calls[loader.qual] if any(t in dq for t in tg)}
     rets = [gl5.node_for(n) for n in walk_no_nested(loader.node) if isinstance(n, ast.Return)]
     r7.instance(loader, loader.node, "loader -> discovery on every returning path")
+    if not dnodes and loader.qual in dq:
+        # the discovery walk sits in the loader itself (helper inlined): its position is judged through the recursive loader call
+        dnodes = {gl5.node_for(c).id for c, tg in p.calls[loader.qual] if loader.qual in tg}
     if not dnodes:
         r7.check(False, loader, loader.node, "the loader does not call the child-history discovery at all: nested histories are never loaded, hence never verified", construct="loader without discovery")
     for rn in rets:
